@@ -140,6 +140,8 @@ def t_formula(rng, gid, configured=None, cls='FormulaGrader'):
         cfg['failable_evals'] = pick(rng, [1, 2])
     if maybe(rng, 0.25):
         cfg['tolerance'] = pick(rng, ['1%', 0.001, 0, '0%'])
+    if maybe(rng, 0.12):
+        cfg['metric_suffixes'] = True
     targets = []
     if maybe(rng, 0.15):
         # an author-defined sampling set (official extension point) for one variable
@@ -231,6 +233,10 @@ def t_numerical(rng, gid, configured=None):
     ])
     if maybe(rng, 0.3):
         cfg['tolerance'] = pick(rng, ['1%', 0.01, 0])
+    if maybe(rng, 0.15):
+        cfg['metric_suffixes'] = True
+        if answer == '3.5':
+            rights = rights + ['3500m', '0.0035k']
     targets = []
     if maybe(rng, 0.25):
         stub = gid + '.nf'
@@ -473,6 +479,28 @@ def t_list(rng, gid, shared=None):
     targets = []
     r = rng.random()
     depth = 1
+    if r < 0.12:
+        # answers that refer to sibling inputs (documented feature of ordered formula lists):
+        # each sibling input becomes a dependent variable sampled alongside the author's
+        cfg['ordered'] = True
+        cfg['subgraders'] = {'__grader__': {'cls': 'FormulaGrader', 'cfg': {'variables': ['x']}}}
+        cfg['answers'] = pick(rng, [['sibling_2 + sibling_3', 'x', 'x^2'], ['x', 'sibling_1^2', 'sibling_2+1'],
+                                    ['sibling_3', 'sibling_1*2', 'x']])
+        first = cfg['answers']
+        if first[0].startswith('sibling_2'):
+            right = ['x + x^2', 'x', 'x^2']
+            bad = [['x + x^2', 'x', 'y^2'], ['x + x^2', 'x', ''], ['x + x^2', 'x+', 'x^2'],
+                   ['x + x^2', 'sibling_3', 'x^2'], ['sibling_1', 'x', 'x^2'], ['x', 'x', 'sibling_2']]
+        elif first[0] == 'x':
+            right = ['x', 'x^2', 'x^2+1']
+            bad = [['y', 'x^2', 'x^2+1'], ['x', 'zz', 'x^2+1'], ['', 'x^2', 'x^2+1'], ['x', 'sibling_3', 'sibling_2']]
+        else:
+            right = ['x', 'x*2', 'x']
+            bad = [['x', 'q*2', 'x'], ['sibling_2', 'sibling_3', 'sibling_1'], ['x', 'x*2', 'w']]
+        pal = {'right': [right], 'wrong': [[right[0], right[1], '2*x'], ['0', right[1], right[2]]], 'malformed': bad}
+        return {'bp': {'id': gid, 'cls': 'ListGrader', 'cfg': cfg}, 'configured': True, 'kind': 'list', 'n': 3,
+                'pal': pal, 'expects': {'valid': [], 'invalid': []}, 'targets': [], 'depth': 1,
+                'debug': bool(cfg.get('debug')), 'budget_all': True}
     if r < 0.55:
         sub, items, targets, depth = _sub_for_list(rng, gid, shared)
         n = pick(rng, [2, 3, 4])
